@@ -5,7 +5,7 @@ from vf import q, qlist, clist, cbool, cnat, copt, frac, fr_json
 
 ID = 'C02'
 COQ_DIR = 'C02'
-COQ_HEADER = 'From V Require Import Common.Num C02.Model.\nOpen Scope Q_scope.'
+COQ_HEADER = 'From V Require Import Common.Num C02.Model C02.ModelX.\nOpen Scope Q_scope.'
 RULE = ('stub property package of three user-defined chemicals whose mixture H / Cn models are exact and phase dependent: '
         'H = sum n_i Cn_i (T - 298.15) with Cn = 64, 32, 128 in l/L/s/S and H = sum n_i (Cn_i (T - 298.15) + L_i) with Cn = 32, 16, 64, '
         'L = 8192, 4096, 16384 in g, plus a pressure term n k (P - 101325)/1024 in every phase (so that WHEN an inlet is read matters); S is '
@@ -19,7 +19,11 @@ RULE = ('stub property package of three user-defined chemicals whose mixture H /
         'and the current value), iter (iter_T_at_HP / iter_T_at_SP / xiter_* called directly with affine models and a rational stand-in '
         'for exp), wrap (the four Mixture.(x)solve_T_at_HP/SP wrappers with scripted flexsolve calls that return or raise; result AND what '
         'is left in _free_energy_args), hist (histories over a stream and its proxies: reads of H/S/h, T/P/phase/H/h/Hnet assignments, '
-        's.X = s.X, mixes, separations; every returned value, every exception and the final state through every handle).  Compared: every stream of the store afterwards (class, '
+        's.X = s.X, mixes, separations; every returned value, every exception and the final state through every handle), mixmm (kind mix/mixs: exactly one non-empty '
+        'inlet, a MultiStream over any of 11 phase sets, into a MultiStream receiver over another / a compatible / the same phase set, so that '
+        'MaterialIndexer.copy_like runs its expansion, renaming and identical-indexer branches, then H += Q), copy (copy_like called directly on every '
+        'pair of classes and phase sets, also on itself), mixcp (mix_from(conserve_phases=True), real and scripted solver, all stream shapes, Heat / None '
+        'among the inlets); every mix / mixs case is evaluated with ModelX.mix_from_x.  Compared: every stream of the store afterwards (class, '
         'phases, flows per phase exactly, T to 1e-9, P exactly), H of every stream to 1e-9, exception class.  non-trivial = the '
         'operation changed the store (or returned a value / raised); distinct = distinct case hash')
 ASSUMPTIONS = [
@@ -40,8 +44,11 @@ TRUSTED = [
     '_multi_stream.py (H/h/S setters, phase getter), indexer.py (mix_from, separate_out, copy_like for one property package), '
     'mixture/mixture.py (iter_T_at_HP/SP, solve_T_at_HP); tie = correspondence check',
     'the property cache of _get_property is treated as transparent (C14)',
-    'streams of one property package only (other packages: C01); MaterialIndexer.copy_like between MultiStreams of different phase sets is not modelled (returns an error; never generated)',
-    'vle=True and conserve_phases=True arguments of mix_from are not modelled',
+    'coq/C02/ModelX.v is hand-written from indexer.py MaterialIndexer.copy_like (MultiStream <- MultiStream, all three phase-indexer branches) and '
+    '_stream.py mix_from(conserve_phases=True); tie = correspondence (kinds mix, mixs, copy, mixcp)',
+    'streams of a second property package (same chemicals, other order and another Chemicals object) are compared in the coordinates of the first; '
+    'packages with chemicals the receiver lacks: C01',
+    'vle=True argument of mix_from is not modelled (the VLE solver is C08 / C15 territory)',
 ]
 
 import os
@@ -219,6 +226,100 @@ def gen_mix(rng, scripted, fail_single=False):
             case['others'] = [[o[0], abs(o[1])] if o[0] in ('heat', 'power') else o for o in others]
     if scripted:
         case['script'] = gen_script(rng, fail_single=fail_single)
+    return case
+
+MPHASES = [('g', 'l'), ('g', 's'), ('L', 'g'), ('L', 'l'), ('g', 'l', 's'), ('l', 's'), ('L', 'S'), ('L', 's'), ('L', 'g', 'l'),
+           ('S', 'g', 'l'), ('g', 'l'), ('S', 'l')]
+def gen_mstream(rng, phases=None, empty=False):
+    """a MultiStream over any of the phase sets above (not only g/l)"""
+    ps = phases or rng.choice(MPHASES)
+    rows = {p: gen_row(rng, empty or rng.random() < 0.25) for p in ps}
+    if not empty and not any(any(r) for r in rows.values()):
+        rows[rng.choice(ps)] = gen_row(rng)
+    return {'multi': True, 'rows': rows, 'T': float(rng.choice(TS)), 'P': rng.choice(PS)}
+
+def guard_reachable(case):
+    """heat that would need T < TMIN is outside the property: make it positive"""
+    streams, others = case['streams'], case['others']
+    ne = [streams[o[1]] for o in others if o[0] == 's' and not is_empty(streams[o[1]])]
+    if ne and not case.get('script'):
+        H = sum(stub_H(d) for d in ne) + F(case['Q']) + sum(F(o[1]) for o in others if o[0] in ('heat', 'power'))
+        if TREF + H / sum(stub_C(d) for d in ne) < TMIN:
+            case['Q'] = abs(case['Q'])
+            case['others'] = [[o[0], abs(o[1])] if o[0] in ('heat', 'power') else o for o in others]
+    return case
+
+def gen_mixmm(rng, scripted=False):
+    """exactly one non-empty inlet, a MultiStream, mixed into a MultiStream receiver over ANOTHER phase set (sometimes the same
+    set, sometimes a single-phase receiver): Stream.mix_from takes the copy_like shortcut and MaterialIndexer.copy_like runs
+    its phase-set branch (identical indexer / compatible renaming l<->L, s<->S / _expand_phases), then `self.H += Q`"""
+    k = rng.random()
+    inlet = gen_mstream(rng)
+    if k < 0.2:
+        pair = rng.sample([('l', 's'), ('L', 'S'), ('L', 's')], 2)           # compatible, not identical
+        recv = gen_mstream(rng, pair[0], empty=rng.random() < 0.3); inlet = gen_mstream(rng, pair[1])
+    elif k < 0.3: recv = gen_mstream(rng, tuple(inlet['rows']), empty=rng.random() < 0.3)
+    elif k < 0.4: recv = gen_stream(rng, multi_p=0., phases='lgsL')
+    else: recv = gen_mstream(rng, empty=rng.random() < 0.3)
+    streams = [recv, inlet]
+    others = [['s', 1]]
+    for _ in range(rng.choice([0, 0, 1, 2])):
+        e = gen_mstream(rng, empty=True) if rng.random() < 0.5 else gen_stream(rng, empty_p=1., multi_p=0.)
+        streams.append(e); others.insert(rng.randrange(len(others) + 1), ['s', len(streams) - 1])
+    if rng.random() < 0.15 and is_empty(recv): others.append(['s', 0])
+    if rng.random() < 0.3:
+        others.insert(rng.randrange(len(others) + 1), [rng.choice(['heat', 'power']), float(rng.choice(QS[3:]))])
+    if rng.random() < 0.08: others.append(['none'])
+    case = {'kind': 'mixs' if scripted else 'mix', 'streams': streams, 'r': 0, 'others': others, 'Q': float(rng.choice(QS)), 'pre': gen_pre(rng, streams, 0.3)}
+    case['pre'] = [op for op in case['pre'] if op[0] == 'read' or not streams[op[1]]['multi']]
+    if rng.random() < 0.3:
+        for d in streams:
+            if rng.random() < 0.5: d['pkg'] = 1
+    if scripted: case['script'] = gen_script_x(rng)
+    return guard_reachable(case)
+
+def gen_script_x(rng):
+    """scripted solver over the phase sets of gen_mstream"""
+    tbl = gen_script(rng)
+    for ps in MPHASES + [('L', 'g', 'l', 's'), ('L', 'S', 'l', 's'), ('L', 'l', 's'), ('L', 'S', 's'), ('L', 'S', 'l'), ('S', 'g', 'l', 's'), ('L', 'g', 's'), ('L', 'S', 'g'), ('L', 'S', 'g', 'l')]:
+        key = ''.join(ps)
+        if key not in tbl:
+            tbl[key] = None if rng.random() < 0.35 else [float(rng.choice([300, 320, 350.5, 400])), float(rng.choice([0, F(1, 64), F(1, 2)])), float(rng.choice([0, 0, 1]))]
+    return tbl
+
+def gen_copy(rng):
+    """self.copy_like(other) called directly on every pair of classes and phase sets (and on the stream itself)"""
+    def any_stream():
+        return gen_mstream(rng, empty=rng.random() < 0.1) if rng.random() < 0.65 else gen_stream(rng, empty_p=0.1, multi_p=0., phases='lgsLS')
+    a, b = any_stream(), any_stream()
+    if a['multi'] and rng.random() < 0.15:
+        pair = rng.sample([('l', 's'), ('L', 'S'), ('L', 's')], 2)
+        a, b = gen_mstream(rng, pair[0]), gen_mstream(rng, pair[1])
+    case = {'kind': 'copy', 'streams': [a, b], 'same': rng.random() < 0.08}
+    if rng.random() < 0.3: b['pkg'] = 1
+    if rng.random() < 0.1: a['pkg'] = 1
+    case['pre'] = [['read', rng.randrange(2), rng.choice(['H', 'S'])]] if rng.random() < 0.3 else []
+    return case
+
+def gen_mixcp(rng, scripted=False):
+    """Stream.mix_from(..., conserve_phases=True): the receiver takes the phases of itself and of every object in `others`
+    before the material is mixed and the enthalpy assigned (no fallback)"""
+    if rng.random() < 0.6:
+        case = gen_mix(rng, scripted)
+    else:
+        n = rng.randint(2, 4)
+        streams = [gen_mstream(rng, empty=rng.random() < 0.15) if rng.random() < 0.5 else gen_stream(rng, multi_p=0., phases='llgglgsL') for _ in range(n)]
+        r = rng.randrange(n)
+        others = [['s', rng.randrange(n)] for _ in range(rng.choice([2, 2, 3, 4]))]
+        if rng.random() < 0.3: others[rng.randrange(len(others))] = ['s', r]
+        if rng.random() < 0.1: others.append(['heat', float(rng.choice(QS[3:]))])
+        case = {'streams': streams, 'r': r, 'others': others, 'Q': float(rng.choice(QS)), 'pre': []}
+        if rng.random() < 0.3:
+            for d in streams:
+                if rng.random() < 0.5: d['pkg'] = 1
+        if scripted: case['script'] = gen_script_x(rng)
+        guard_reachable(case)
+    case['kind'] = 'mixcp'
     return case
 
 def gen_zero_sum(rng):
@@ -463,6 +564,9 @@ def gen_cases(rng, tier):
     cases += [gen_hist_multi(rng) for _ in range(60 * n)]
     cases += [gen_imodel(rng) for _ in range(40 * n)]
     cases += [gen_zero_sum(rng) for _ in range(30 * n)]
+    cases += [gen_mixmm(rng, rng.random() < 0.2) for _ in range(70 * n)]
+    cases += [gen_copy(rng) for _ in range(50 * n)]
+    cases += [gen_mixcp(rng, rng.random() < 0.25) for _ in range(60 * n)]
     return cases
 
 # ------------------------------------------------------------------ implementation side
@@ -781,7 +885,17 @@ def run_impl(case):
     e = env(); mm = e['mm']
     k = case['kind']
     out = {'err': None}
-    if k in ('mix', 'mixs', 'sep'):
+    if k == 'copy':
+        objs = [build_stream(d) for d in case['streams']]
+        apply_pre(case, objs)
+        out['init'] = [snap(s) for s in objs]
+        try: objs[0].copy_like(objs[0] if case['same'] else objs[1])
+        except Exception as ex:
+            out['err'] = err_of(ex); out['exc'] = f'{type(ex).__name__}: {ex}'[:200]
+        out['final'] = [snap(s) for s in objs]
+        out['H'] = readable(lambda: [fr_json(frac(s.H)) for s in objs])
+        return out
+    if k in ('mix', 'mixs', 'sep', 'mixcp'):
         objs = [build_stream(d) for d in case['streams']]
         apply_pre(case, objs)
         out['init'] = [snap(s) for s in objs]
@@ -792,7 +906,7 @@ def run_impl(case):
                 if k == 'sep':
                     objs[case['r']].separate_out(objs[case['o']])
                 else:
-                    objs[case['r']].mix_from(build_others(case, objs), Q=Qv)
+                    objs[case['r']].mix_from(build_others(case, objs), Q=Qv, **({'conserve_phases': True} if k == 'mixcp' else {}))
         except Exception as ex:
             out['err'] = err_of(ex); out['exc'] = f'{type(ex).__name__}: {ex}'[:200]
         out['final'] = [snap(s) for s in objs]
@@ -874,8 +988,11 @@ def cres(err, ok):
 def model_term(case, out):
     k = case['kind']
     O = coracles(case)
-    if k in ('mix', 'mixs'):
-        return f'(mix_from {O} {clist([cstream(s) for s in out["init"]])} {cnat(case["r"])} {clist([cinlet(o) for o in case["others"]])} {q(out["Q"])})'
+    if k in ('mix', 'mixs', 'mixcp'):
+        return f'({"mix_from_cp" if k == "mixcp" else "mix_from_x"} {O} {clist([cstream(s) for s in out["init"]])} {cnat(case["r"])} {clist([cinlet(o) for o in case["others"]])} {q(out["Q"])})'
+    if k == 'copy':
+        a, b = out['init']
+        return f'(copy_like_x {cstream(a)} {cstream(a if case["same"] else b)} {cbool(case["same"])})'
     if k == 'sep':
         return f'(separate_out {O} {clist([cstream(s) for s in out["init"]])} {cnat(case["r"])} {cnat(case["o"])})'
     if k == 'set':
@@ -948,7 +1065,14 @@ def cobs(o):
 def coq_case(case, out):
     k = case['kind']
     t = model_term(case, out)
-    if k in ('mix', 'mixs', 'sep'):
+    if k == 'copy':
+        a, b = out['init']
+        exp = cres(out['err'], cstream(out['final'][0]))
+        H = None if (out['err'] or out['H'] is None or cancels(out['final'][0], out['H'][0])) else out['H'][0]
+        untouched = cbool(case['same'] or out['final'][1] == out['init'][1])
+        return (f'(copy_check {coracles(case)} {cstream(a)} {cstream(a if case["same"] else b)} {cbool(case["same"])} {exp} '
+                f'{copt(H, lambda x: q(F(x)))} && {untouched})')
+    if k in ('mix', 'mixs', 'sep', 'mixcp'):
         exp = cres(out['err'], clist([cstream(s) for s in out['final']]))
         pre = 'true'
         if out.get('H0') and not any(cancels(sn, h) for sn, h in zip(out['init'], out['H0'])):
@@ -993,16 +1117,25 @@ def coq_show(case, out):
 
 def nontrivial(case, out):
     k = case['kind']
-    if k in ('mix', 'mixs', 'sep'):
+    if k in ('mix', 'mixs', 'sep', 'mixcp', 'copy'):
         return out.get('final') != out.get('init') or out.get('err') is not None
     if k == 'set':
         return out.get('final') != out.get('init') or out.get('err') is not None
     return True
 
+def mm_branch(a, b):
+    pa, pb = sorted(a['rows']), sorted(b['rows'])
+    if pa == pb: return 'same-phases'
+    return 'compatible' if [x.lower() for x in pa] == [x.lower() for x in pb] else 'expand'
+
 def classify(case, out):
     k = case['kind']
     ks = ['kind:' + k, 'result:' + (out.get('err') or 'ok')]
-    if k in ('mix', 'mixs'):
+    if k == 'copy':
+        a, b = case['streams']
+        ks.append('copy:%s<-%s' % ('multi' if a['multi'] else 'single', 'self' if case['same'] else 'multi' if b['multi'] else 'single'))
+        if a['multi'] and b['multi'] and not case['same']: ks.append('copy_like_mm:' + mm_branch(a, b))
+    if k in ('mix', 'mixs', 'mixcp'):
         ss = case['streams']
         def empty(d): return not any(any(r) for r in d['rows'].values())
         idx = [o[1] for o in case['others'] if o[0] == 's']
@@ -1015,6 +1148,9 @@ def classify(case, out):
         if any(o[0] in ('heat', 'power') for o in case['others']): ks.append('heat_object')
         if case['Q']: ks.append('Q!=0')
         if out.get('final') and out['final'][case['r']]['multi'] != ss[case['r']]['multi']: ks.append('receiver_changed_class')
+        if len(ne) == 1 and ss[case['r']]['multi'] and ss[ne[0]]['multi'] and ne[0] != case['r']:
+            ks.append('copy_like_mm:' + mm_branch(ss[case['r']], ss[ne[0]]))
+        if k == 'mixcp' and len(ne) >= 2: ks.append('conserve_phases:taken')
     if k == 'set':
         ks.append('set:' + case['which'] + ':' + case['mode'] + (':scripted' if case.get('script') else ':real'))
         if out.get('final') and out['final']['pm'][0][0] != out['init']['pm'][0][0]: ks.append('phase_flipped')
@@ -1058,7 +1194,8 @@ def oracle(case):
     k = case['kind']
     real = case.get('package') == 'real'
     tolH = 1e-6 if real else 1e-7
-    if k in ('mix', 'mixs'):
+    if k in ('mix', 'mixs', 'mixcp'):
+        cp = {'conserve_phases': True} if k == 'mixcp' else {}
         objs = [build_stream(d) for d in case['streams']]
         apply_pre(case, objs)
         others = build_others(case, objs)
@@ -1076,8 +1213,9 @@ def oracle(case):
         before = [state(s) for s in objs]
         try:
             with solver_ctx(case, real_otherwise=True):
-                r.mix_from(others, Q=Qv)
+                r.mix_from(others, Q=Qv, **cp)
         except Exception as ex:
+            if cp and len(ne) >= 2 and any(not isinstance(o, tmo.Stream) for o in others): return None   # conserve_phases reads .phase of every object given
             if case.get('script'): return None       # the injected solver failures may make the mix impossible
             if total_in == 0 or r.F_mol == 0 or any(x < 0 for x in state(r)[2]): return None
             if not reachable(r, 'H', H_in): return None
